@@ -55,6 +55,17 @@ CHECKS = {
    note='Atomicity and sequential consistency of the builtins on the host are trusted; linearizability over interleavings is not decided '
         '(it follows from single-builtin bodies under that trust). Little-endian configuration; the big-endian lock regions are decided in C19.',
    ref='DESIGN.md 4/C16'),
+ 'C17': dict(
+   technique='partial evaluation of the three emitters (offset use) + path summaries of futex.c with traced locks, condition waits, map/list operations and status havoc; lock-region, ordering and counting rules on the traces',
+   text='The wait32/wait64/notify templates must add the decoded static offset to the address operand and pass operands in stack order. '
+        'Every path of wasmMemoryAtomicWait/Notify (nondeterministic allocation and map results, status re-read after each of up to 2 '
+        'condition waits, 3 queued waiters with unknown status for notify) keeps all futex state inside one balanced lock region, '
+        'never unlocks between the expected-value load and the enqueue, waits on the protocol mutex, re-tests status under the lock, '
+        'derives 0/1/2 from what it observed, unlinks before freeing, removes the map entry only for an empty list; notify flips only '
+        'nodes observed Waiting, signals each once, is bounded by count and returns the number flipped.',
+   note='Structural premises only: absence of lost wake-ups/deadlock over all interleavings, hash collisions and timeout arithmetic '
+        'are not decided (model-checking territory). pthread semantics and the map/list primitives are trusted.',
+   ref='DESIGN.md 4/C17'),
  'C18': dict(
    technique='static lock-set consistency over partial-evaluation path summaries (ordered read/write/lock/unlock traces of the memory descriptor)',
    text='On every shared path of wasmMemoryGrow all reads and writes of pages/size lie inside the single, balanced lock region of the '
